@@ -1067,8 +1067,9 @@ def _build_constant(
 ) -> str | Expr:
     if isinstance(node.value, str):
         if in_joined_str and not in_formatted_str:
-            # We're in a f-string, not in a formatted value, don't keep quotes.
-            return node.value
+            # We're in a f-string, not in a formatted value, don't keep quotes,
+            # but keep braces, quotes and special characters escaped.
+            return repr(node.value + '"')[1:-2].replace("{", "{{").replace("}", "}}")
         if parse_strings and not literal_strings:
             # We're in a place where a string could be a type annotation
             # (and not in a Literal[...] type annotation).
